@@ -186,6 +186,11 @@ func decodeEdit(data []byte) (Edit, error) {
 	}
 	edit := Edit{Type: EditType(data[len(editMagic)])}
 	pos := len(editMagic) + 1
+	if pos == len(data) {
+		// Every edit type carries at least one field: nothing after the type is a record that
+		// was cut short, not an edit with default values.
+		return Edit{}, fmt.Errorf("manifest entry without payload")
+	}
 	switch edit.Type {
 	case EditAddFile, EditDeleteFile:
 		// EditAddFile / EditDeleteFile Data Format:
@@ -486,14 +491,15 @@ func appendBytes(dst []byte, b []byte) []byte {
 
 // uvarintAt decodes a uvarint at data[pos:] and returns the bytes consumed. An empty
 // remainder decodes as (0, 0) so optional trailing fields keep their zero value. A
-// position past the end or an overflowing varint consumes len(data)+1 bytes, which
-// trips the callers' `pos > len(data)` truncation checks instead of panicking.
+// position past the end, an overflowing varint or one that is cut short consumes
+// len(data)+1 bytes, which trips the callers' `pos > len(data)` truncation checks.
 func uvarintAt(data []byte, pos int) (uint64, int) {
 	if pos < 0 || pos > len(data) {
 		return 0, len(data) + 1
 	}
 	v, n := binary.Uvarint(data[pos:])
-	if n < 0 {
+	if n < 0 || (n == 0 && pos < len(data)) {
+		// Overflow, or a varint cut in the middle: the remainder is not empty but too short.
 		return 0, len(data) + 1
 	}
 	return v, n
@@ -509,9 +515,15 @@ func readBytesAt(data []byte, pos int) ([]byte, int) {
 }
 
 func readBytes(data []byte) ([]byte, int) {
+	if len(data) == 0 {
+		// An absent optional trailing field.
+		return nil, 0
+	}
 	length, n := binary.Uvarint(data)
 	if n <= 0 || length > uint64(len(data)-n) {
-		return nil, len(data)
+		// A length that cannot be read or points past the record: consume more than there is,
+		// which trips the callers' `pos > len(data)` truncation checks.
+		return nil, len(data) + 1
 	}
 	end := n + int(length)
 	return data[n:end], end
